@@ -306,50 +306,63 @@ pub fn scalar_sweep(ctx: &Ctx) -> u64 {
                     },
                 }
             }
+            let bufs2 = bufs.clone();
+            let r = guarded(|| {
+                let bufs = bufs2;
+                let mut k = 0u64;
             // next/peek deliver the characters in order
-            k += 1;
-            let q = BufferQueue::default();
-            for b in &bufs {
-                q.push_back(StrTendril::from_slice(b));
-            }
-            let all: String = bufs.concat();
-            let mut got = String::new();
-            loop {
-                let p = q.peek();
-                let nx = q.next();
-                if p != nx {
-                    ctx.violation("return-value", &format!("sweep peek/next buffers={bufs:?}"), json!({"message": format!("peek {p:?} next {nx:?}")}));
+                k += 1;
+                let q = BufferQueue::default();
+                for b in &bufs {
+                    q.push_back(StrTendril::from_slice(b));
                 }
-                match nx {
-                    Some(ch) => got.push(ch),
-                    None => break,
-                }
-            }
-            if got != all {
-                ctx.violation("return-value", &format!("sweep next buffers={bufs:?}"), json!({"message": format!("model {all:?} real {got:?}")}));
-            }
-            // eat: the text itself matches; an ASCII letter pattern matches only itself (or its other case when folding)
-            for ci in [false, true] {
-                for pat in [all.clone(), "xAy".to_string(), "xay".to_string(), "A".to_string(), "k".to_string(), "K".to_string(), "\u{212a}".to_string()] {
-                    k += 1;
-                    let q = BufferQueue::default();
-                    for b in &bufs {
-                        q.push_back(StrTendril::from_slice(b));
+                let all: String = bufs.concat();
+                let mut got = String::new();
+                loop {
+                    let p = q.peek();
+                    let nx = q.next();
+                    if p != nx {
+                        ctx.violation("return-value", &format!("sweep peek/next buffers={bufs:?}"), json!({"message": format!("peek {p:?} next {nx:?}")}));
                     }
-                    let got = if ci { q.eat(&pat, u8::eq_ignore_ascii_case) } else { q.eat(&pat, u8::eq) };
-                    let (ab, pb) = (all.as_bytes(), pat.as_bytes());
-                    let m = ab.len().min(pb.len());
-                    let prefix_ok = (0..m).all(|i| beq(ci, ab[i], pb[i]));
-                    let want = if !prefix_ok { Some(false) } else if ab.len() < pb.len() { None } else { Some(true) };
-                    let mut rest = String::new();
-                    while let Some(ch) = q.next() {
-                        rest.push(ch);
-                    }
-                    let want_rest = if want == Some(true) { all[pat.len()..].to_string() } else { all.clone() };
-                    if got != want || rest != want_rest {
-                        ctx.violation("return-value", &format!("sweep eat pattern={pat:?} fold={ci} buffers={bufs:?}"), json!({"message": format!("model {want:?} rest {want_rest:?}; real {got:?} rest {rest:?}")}));
+                    match nx {
+                        Some(ch) => got.push(ch),
+                        None => break,
                     }
                 }
+                if got != all {
+                    ctx.violation("return-value", &format!("sweep next buffers={bufs:?}"), json!({"message": format!("model {all:?} real {got:?}")}));
+                }
+                // eat: the text itself matches; an ASCII letter pattern matches only itself (or its other case when folding)
+                for ci in [false, true] {
+                    for pat in [all.clone(), "xAy".to_string(), "xay".to_string(), "A".to_string(), "k".to_string(), "K".to_string(), "\u{212a}".to_string()] {
+                        k += 1;
+                        let q = BufferQueue::default();
+                        for b in &bufs {
+                            q.push_back(StrTendril::from_slice(b));
+                        }
+                        let got = if ci { q.eat(&pat, u8::eq_ignore_ascii_case) } else { q.eat(&pat, u8::eq) };
+                        let (ab, pb) = (all.as_bytes(), pat.as_bytes());
+                        let m = ab.len().min(pb.len());
+                        let prefix_ok = (0..m).all(|i| beq(ci, ab[i], pb[i]));
+                        let want = if !prefix_ok { Some(false) } else if ab.len() < pb.len() { None } else { Some(true) };
+                        let mut rest = String::new();
+                        while let Some(ch) = q.next() {
+                            rest.push(ch);
+                        }
+                        let want_rest = if want == Some(true) { all[pat.len()..].to_string() } else { all.clone() };
+                        if got != want || rest != want_rest {
+                            ctx.violation("return-value", &format!("sweep eat pattern={pat:?} fold={ci} buffers={bufs:?}"), json!({"message": format!("model {want:?} rest {want_rest:?}; real {got:?} rest {rest:?}")}));
+                        }
+                    }
+                }
+        
+                k
+            });
+            match r {
+                Ok(kk) => k += kk,
+                Err(p) => {
+                    ctx.violation("panic", &format!("sweep next/peek/eat buffers={bufs:?}"), json!({"message": p}));
+                },
             }
         }
         n.fetch_add(k, std::sync::atomic::Ordering::Relaxed);
